@@ -629,3 +629,78 @@ func (p *Prog) kindPredicateCovers(info *types.Info, f *types.Func, hd *ast.Func
 	}
 	return true, ""
 }
+
+// ---- V9: the string reader asks for more input only while the string is incomplete ----
+
+func init() {
+	register("V9", "Decoder.readStringAsBytes refills the read window (loadMore) inside its loop only on a path on which the remaining unit count has been compared with zero: a string whose last character ends exactly at the end of the window is complete, and asking for more at the end of the input reports io.EOF for a value that decoded correctly (Unmarshal(Marshal(\"a\")) returned an error)", 1, ruleV9)
+}
+
+func ruleV9(r *Run) {
+	p := r.P
+	fd, pkg := p.DeclOf("io", "Decoder.readStringAsBytes")
+	lm := p.LookupFunc("io", "Decoder.loadMore")
+	if fd == nil || lm == nil {
+		r.Undec("io.Decoder.readStringAsBytes / loadMore", 0, "not found")
+		return
+	}
+	info := pkg.TypesInfo
+	params := paramsOf(info, fd.Type)
+	if len(params) == 0 {
+		r.Undec("io.Decoder.readStringAsBytes", fd.Pos(), "no count parameter")
+		return
+	}
+	cnt := params[0]
+	parents := parentMap(fd.Body)
+	n := 0
+	ast.Inspect(fd.Body, func(m ast.Node) bool {
+		c, ok := m.(*ast.CallExpr)
+		if !ok || Callee(info, c) != lm {
+			return true
+		}
+		inLoop := false
+		for x := parents[c]; x != nil; x = parents[x] {
+			if _, ok := x.(*ast.ForStmt); ok {
+				inLoop = true
+			}
+		}
+		if !inLoop {
+			return true
+		}
+		n++
+		key := fmt.Sprintf("refill in the string reader #%d", n)
+		seen := false
+		// the outermost loop around the call: the count changes in it, a comparison made before it says nothing
+		var outer ast.Node
+		for x := parents[c]; x != nil; x = parents[x] {
+			if _, ok := x.(*ast.ForStmt); ok {
+				outer = x
+			}
+		}
+		for _, fc := range factsWithSwitch(parents, c) {
+			if fc.e.Pos() < outer.Pos() {
+				continue
+			}
+			ast.Inspect(fc.e, func(x ast.Node) bool {
+				be, ok := x.(*ast.BinaryExpr)
+				if !ok {
+					return true
+				}
+				switch be.Op {
+				case token.EQL, token.NEQ, token.GTR, token.LEQ, token.LSS, token.GEQ:
+					if identObj(info, be.X) == cnt {
+						if k, ok := intConst(info, be.Y); ok && (k == 0 || k == 1) {
+							seen = true
+						}
+					}
+				}
+				return true
+			})
+		}
+		r.Check(seen, key, c.Pos(), "only after the remaining count was compared with zero", "the window is refilled although nothing on this path has asked whether units of the string remain: when the last character ends exactly at the end of the window the string is complete, and at the end of the input loadMore records io.EOF - a top-level one-character string, or any string that ends the stream without a closing quote in the window, decodes correctly but reports an error")
+		return true
+	})
+	if n == 0 {
+		r.Undec("refill in the string reader", fd.Pos(), "no loadMore call inside the loop of readStringAsBytes")
+	}
+}
